@@ -449,6 +449,91 @@ func checkDecoderWindow(c *Ctx, p *core.Prog, ts *ssa.Function, read *ssa.Call) 
 			"DecodeRune(buf[i:]) on the read buffer", "the slice given to the decoder is capped (or is another buffer): a multi-byte rune that straddles the window edge is decoded as U+FFFD, so shifting the text by a few bytes changes the tokens")
 	}
 	c.R.RequireMin("R08.5", "rune decode sites", n, 1)
+
+	// R08.6 the scan position moves only by the size of the rune that was decoded: every byte of the input is seen by the
+	// decoder and by the dispatch that follows it (newlines, blanks, word characters), none is stepped over.
+	for _, call := range core.CallsIn(ts) {
+		if !strings.HasPrefix(core.StaticCalleeName(call.Common()), "unicode/utf8.DecodeRune") {
+			continue
+		}
+		arg, ok := call.Common().Args[0].(*ssa.Slice)
+		if !ok || arg.Low == nil {
+			continue
+		}
+		var size ssa.Value
+		if cv, isCall := call.(*ssa.Call); isCall {
+			for _, r := range *cv.Referrers() {
+				if ex, isEx := r.(*ssa.Extract); isEx && ex.Index == 1 {
+					size = ex
+				}
+			}
+		}
+		// the web of the scan position: phis and additions connected to the slicing index
+		web := map[ssa.Value]bool{}
+		var ops []*ssa.BinOp
+		var walk func(v ssa.Value)
+		walk = func(v ssa.Value) {
+			if v == nil || web[v] {
+				return
+			}
+			switch x := v.(type) {
+			case *ssa.Phi:
+				web[v] = true
+				for _, e := range x.Edges {
+					walk(e)
+				}
+			case *ssa.BinOp:
+				if x.Op != token.ADD && x.Op != token.SUB {
+					return
+				}
+				web[v] = true
+				ops = append(ops, x)
+				walk(x.X)
+			default:
+				return
+			}
+			if refs := v.Referrers(); refs != nil {
+				for _, r := range *refs {
+					switch u := r.(type) {
+					case *ssa.Phi:
+						walk(u)
+					case *ssa.BinOp:
+						if (u.Op == token.ADD || u.Op == token.SUB) && u.X == v {
+							walk(u)
+						}
+					}
+				}
+			}
+		}
+		walk(arg.Low)
+		nOps := 0
+		for _, bo := range ops {
+			if !web[bo.X] {
+				continue
+			}
+			if bo.Referrers() == nil {
+				continue
+			}
+			// only updates that flow back into the position (not `idx + n` computed for another purpose)
+			flowsBack := false
+			for _, r := range *bo.Referrers() {
+				if ph, isPhi := r.(*ssa.Phi); isPhi && web[ph] {
+					flowsBack = true
+				}
+				if b2, isB := r.(*ssa.BinOp); isB && web[b2] {
+					flowsBack = true
+				}
+			}
+			if !flowsBack {
+				continue
+			}
+			nOps++
+			okStep := size != nil && bo.Y == size
+			c.R.Check(okStep, "R08.6", "tokenizeStream: the scan position moves only by the size of the decoded rune", p.Pos(bo.Pos()), "position +/- size of the rune just decoded",
+				"the scan position is moved by "+core.AP(bo.Y)+" instead of the size of a decoded rune: bytes are stepped over without being decoded and dispatched, so a newline (or any other significant byte) among them is lost")
+		}
+		c.R.RequireMin("R08.6", "updates of the scan position", nOps, 1)
+	}
 }
 
 // isEOFDisjunction: v is true only if errVal is io.EOF or io.ErrUnexpectedEOF: a direct comparison, an
